@@ -31,7 +31,8 @@ RULE = ("seeded sequence pairs as in C08 (length 0-8 quick, a few long ones > IN
         "max_number, max_table_size, score_only) and align_local_ungapped (same seeds/thresholds/directions, score_only), plus "
         "X-drop boundary cases (a mismatch run whose drop equals the threshold +-1 followed by recovery), seeds taken from "
         "an optimal local alignment, and regions engineered to hold the maximum score in several cells reached by traces of "
-        "different lengths with max_number in {2,5,50} (every returned alignment checked, pairwise distinct).  "
+        "different lengths with max_number in {2,5,50} (every returned alignment checked, pairwise distinct), and long regions whose "
+        "table grows to exactly max_table_size +-1 cells (smallest accepted limit must be a possible table size).  "
         "Each heuristic's score is compared with the executable Lean model (bandedFill / regionAlign / xdropExtend), and every "
         "returned trace goes through the verified checker `checkResult`.  Oracle: validity, rescoring from the trace "
         "(completed by the unaligned ends for semi-global), band / seed / direction containment, score_only equality, "
@@ -102,6 +103,7 @@ def gen_lean():
     x_g = guard(lg, r"if score (>=|>) req_score:", "gapped X-drop acceptance test")
     x_u = guard(ug, r"elif max_score - total_score (>=|>) threshold:", "ungapped X-drop test")
     k_u = guard(ug, r"if total_score (>=|>) max_score:", "ungapped max tracking test")
+    l_g = guard(lg, r"if new_shape\[0\] \* new_shape\[1\] (>=|>) max_size:", "_extend_table size limit test")
     crop = re.search(r"lower_diag = max\(lower_diag, -len\(seq1\)\+1\)\s*\n\s*upper_diag = min\(upper_diag,\s*len\(seq2\)-1\)", bd)
     if not crop:
         raise ValueError("band cropping statements not found in banded.pyx")
@@ -121,6 +123,8 @@ def gen_lean():
             f'def gappedAccept : String := "{x_g}"',
             f'def ungappedDrop : String := "{x_u}"',
             f'def ungappedKeep : String := "{k_u}"',
+            "/-- `_extend_table`: MemoryError iff new_rows * new_cols <op> max_size -/",
+            f'def extendLimit : String := "{l_g}"',
             "end BiotiteModel.Gen.C09", ""]
     return {"BiotiteModel/Gen/C09.lean": "\n".join(body)}
 
@@ -484,6 +488,8 @@ def oracle(case):
         res = _call_safe(c)
     except Exception as e:  # noqa: BLE001
         name = _err(e)
+        if malformed == "mts" and name == "ERR:MemoryError":
+            return _mts_oracle(c)
         if malformed:
             if name == "CRASH":
                 return [(f"C09/{k}/malformed/{malformed}/crash", f"{k} crashed on malformed input {malformed}: {_brief(c)}")]
@@ -494,6 +500,14 @@ def oracle(case):
         pass
     if not res:
         return [(tag + "/no-alignment", f"empty result list: {_brief(c)}")]
+    if malformed == "mts" and c["mts"] > 0:
+        try:
+            free = _call_safe(dict(c, mts=None))
+            if sorted(map(str, free)) != sorted(map(str, res)):
+                v.append(("C09/gapped/max_table_size/limited-result-differs",
+                          f"result with max_table_size={c['mts']} differs from the unlimited result; {_brief(c)}"))
+        except Exception as e:  # noqa: BLE001
+            v.append(("C09/gapped/max_table_size/unlimited-raises", f"unlimited call raised {_err(e)}; {_brief(c)}"))
     scores = {s for s, _ in res}
     if len(scores) != 1:
         v.append((tag + "/scores-differ", f"returned alignments carry different scores {sorted(scores)}: {_brief(c)}"))
@@ -697,6 +711,73 @@ def _classify(c, res, v, tag):
         else:
             out.append((key, msg))
     return out
+
+
+def table_sizes(c):
+    """every size (rows * cols) the X-drop table of a region can have: INIT shape min(len+1, INIT_SIZE) per dimension,
+    each dimension doubled any number of times (documented: a MemoryError is raised if the number of cells WOULD
+    EXCEED max_table_size, so the smallest accepted limit is the size the table finally reaches)"""
+    n, m = len(c["a"]), len(c["b"])
+    si, sj = c["seed"]
+    d = c.get("dir", "both")
+    regions = []
+    if d in ("both", "upstream") and si > 0 and sj > 0:
+        regions.append((si, sj))
+    if d in ("both", "downstream"):
+        regions.append((n - si - 1, m - sj - 1))
+    out = set()
+    for lx, ly in regions:
+        r0, c0 = min(lx + 1, 100), min(ly + 1, 100)
+        r = r0
+        while r <= 2 * (lx + 1):
+            cc = c0
+            while cc <= 2 * (ly + 1):
+                out.add(r * cc)
+                cc *= 2
+            r *= 2
+    return out
+
+
+def _mts_oracle(c):
+    """max_table_size: the call raised MemoryError at limit L.  Find the smallest limit the call accepts (the outcome
+    is monotone in the limit) and require (1) it is a size the table can actually have - 'exceed' means strictly
+    greater, so a table of exactly max_table_size cells is allowed - and (2) the accepted call returns what the
+    unlimited call returns."""
+    key = "C09/gapped/max_table_size/"
+    L = c["mts"]
+
+    def ok(lim):
+        try:
+            return _call_safe(dict(c, mts=lim))
+        except Exception as e:  # noqa: BLE001
+            if _err(e) == "ERR:MemoryError":
+                return None
+            raise
+    try:
+        free = _call_safe(dict(c, mts=None))
+    except Exception as e:  # noqa: BLE001
+        return [(key + "unlimited-raises", f"unlimited call raised {_err(e)}; {_brief(c)}")]
+    sizes = table_sizes(c)
+    hi = max(sizes) if sizes else 1
+    if ok(hi) is None:
+        return [(key + "error-above-largest-table", f"MemoryError even for max_table_size={hi} >= every possible table; {_brief(c)}")]
+    lo = L            # fails at L
+    while hi - lo > 1:
+        mid = (lo + hi) // 2
+        if ok(mid) is None:
+            lo = mid
+        else:
+            hi = mid
+    v = []
+    if hi not in sizes:
+        below = max((x for x in sizes if x < hi), default=None)
+        v.append((key + "limit-not-exact",
+                  f"smallest accepted max_table_size is {hi}, which is not a possible table size (largest possible size below it: "
+                  f"{below}): a table of exactly max_table_size cells is rejected; MemoryError at max_table_size={L}; {_brief(c)}"))
+    got = ok(hi)
+    if got is not None and sorted(map(str, got)) != sorted(map(str, free)):
+        v.append((key + "limited-result-differs", f"result with max_table_size={hi} differs from the unlimited result; {_brief(c)}"))
+    return v
 
 
 def _align_optimal_score(c, mode, gap):
@@ -929,6 +1010,44 @@ def _long(rng, mem=False):
     return c
 
 
+def _long_exact(rng):
+    """table growth up to EXACTLY max_table_size (and one cell less / more): one sequence longer than INIT_SIZE, the other
+    longer or much shorter, a threshold that cannot bind (the table then covers the whole region) or a small one, and
+    max_table_size drawn from the sizes the table can have (INIT shape with each dimension doubled) +-1"""
+    k = 4
+    n = rng.randint(101, 150)
+    a = [rng.randrange(k) for _ in range(n)]
+    if rng.random() < 0.5:
+        b = list(a)
+        for _ in range(rng.randint(0, 3)):
+            pos = rng.randrange(len(b))
+            if rng.random() < 0.5:
+                del b[pos]
+            else:
+                b.insert(pos, rng.randrange(k))
+    else:
+        b = a[:rng.randint(30, 70)]
+        if rng.random() < 0.5:
+            b[rng.randrange(len(b))] = rng.randrange(k)
+    if rng.random() < 0.4:
+        a, b = b, a
+    mt, mm = rng.randint(2, 4), rng.randint(-4, -2)
+    M = [[mt if i == j else mm for j in range(k)] for i in range(k)]
+    d = rng.choice(["downstream", "downstream", "upstream", "both"])
+    n, m = len(a), len(b)
+    seed = {"downstream": [0, 0], "upstream": [n - 1, m - 1], "both": [1, 1]}[d]
+    c = {"kind": "gapped", "a": a, "b": b, "M": M, "w1": "u8", "w2": "u8", "max": 1,
+         "gap": rng.choice([[-3], [-5], [-4, -1]]), "seed": seed, "dir": d,
+         # a non-binding threshold fills the whole region: only when one side is short (cost of the Lean model)
+         "thr": rng.choice([HUGE, HUGE, 12]) if min(n, m) <= 70 else 12}
+    sizes = sorted(x for x in table_sizes(c) if x > 1)
+    # the sizes reached by doubling at least one dimension are the interesting limits
+    base = rng.choice(sizes[1:]) if len(sizes) > 1 else sizes[0]
+    c["mts"] = base + rng.choice([0, 0, 0, -1, 1])
+    c["ops"] = _ops(c)
+    return c
+
+
 def _xdrop_edge(rng):
     """X-drop boundary: a run of mismatches whose total drop is exactly the threshold (or one off), followed by
     enough matches to recover -- `>` vs `>=` in the drop / acceptance tests decides whether the extension goes on"""
@@ -1046,6 +1165,8 @@ def cases(rng, tier):
         yield _on_optimal(rng)
     for k in range(6 if quick else 60):
         yield _long(rng, mem=(k % 2 == 1))
+    for k in range(6 if quick else 60):
+        yield _long_exact(rng)
     # exhaustive small shapes: every pair of length <= L over 2 letters, every seed / every band
     import itertools
     L = 2 if quick else 3
